@@ -941,12 +941,14 @@ def units():
             FunctionUnit(CycleTerminates()),
             LeanUnit("lemma:L-CARD", "lemmas/LCard.lean", ["card_nonneg'", "card_insert_new", "card_subset_le"]),
             FunctionUnit(SwitchContract()), FunctionUnit(DepsExistContract()), FunctionUnit(CondRuleContract()),
-            FunctionUnit(VerifyCodeContract())]
+            FunctionUnit(VerifyCodeContract())] \
+        + __import__("contracts.stmtinit", fromlist=["units"]).units("C10")   # the edges the verifier sees are the ones a statement was given
 
 
 LEVEL = "proof"
 BOUNDED = {"quick": {"timeout_s": 60}, "thorough": {"timeout_s": 600}}
 TRUSTED_BASE = [
+    __import__("contracts.stmtinit", fromlist=["TRUSTED"]).TRUSTED,
     "callee models used in verify_code are transcriptions of the callees' separately proved contracts (same spec predicates in contracts/c10.py)",
     "isinstance / attribute access on statements follow the class family read from dagrt/language.py (SwitchPhase.next_phase, .id, .depends_on, get_written_variables())",
 ]
